@@ -1,5 +1,6 @@
 import XalanModel.C02.Tokenize
 import XalanModel.C02.Compare
+import XalanModel.C02.XEval
 import Driver.Util
 /-
 xm_c02: the Lean side of the C02 correspondence run (same request lines as harness/c02_xpath.cpp).
@@ -14,45 +15,57 @@ open XalanModel.C02
 
 namespace Driver.C02
 
-/-- XPath `number(string)`: ws* '-'? (digits ('.' digits*)? | '.' digits+) ws*, else NaN.
-Value = mantissa / 10^k with one correctly rounded division (exact for the short numerals generated). -/
-def xpathNumber (s : String) : Float :=
-  let nan : Float := 0.0 / 0.0
-  let cs := (s.toList.dropWhile isSpaceC).reverse.dropWhile isSpaceC |>.reverse
-  let (neg, cs) := match cs with | '-' :: r => (true, r) | r => (false, r)
-  let ip := cs.takeWhile isDigitC
-  let rest := cs.dropWhile isDigitC
-  let (fp, rest, dot) := match rest with
-    | '.' :: r => (r.takeWhile isDigitC, r.dropWhile isDigitC, true)
-    | r => ([], r, false)
-  if !rest.isEmpty ∨ (ip.isEmpty ∧ fp.isEmpty) ∨ (ip.isEmpty ∧ !dot) then nan
-  else
-    let digs := ip ++ fp
-    let m := digs.foldl (fun a c => a * 10 + (c.toNat - 48)) 0
-    let v := Float.ofNat m / Float.ofNat (10 ^ fp.length)
-    if neg then -v else v
-
-def floatOps : NumOps String Float where
-  eq a b := a == b
-  ne a b := !(a == b)
-  lt a b := a < b
-  le a b := a ≤ b
-  gt a b := a > b
-  ge a b := a ≥ b
-  ofBool b := if b then 1.0 else 0.0
-  ofStr := xpathNumber
-  toBool n := !(n == 0.0) && !n.isNaN
-  toStr n := toString n
-  empty := ""
-  strTrue := "true"
-  strFalse := "false"
-
-structure Sess where
-  vars : List (String × Obj String Float) := []
-  nextAddr : Nat := 1
-
 def strOfHex (h : String) : Option (List Char) :=
   (Driver.unitsOfHex h).map fun us => us.map Char.ofNat
+
+structure Sess where
+  doc : Doc := []
+  vars : Vars := []
+  nextAddr : Nat := 1000
+
+def parseTable (t : String) : Option Doc :=
+  (t.splitOn ";").mapM fun rec =>
+    match rec.splitOn "," with
+    | [k, n, v, p] =>
+      let kind : Option Kind := match k with
+        | "r" => some .root | "e" => some .elem | "a" => some .attr | "t" => some .text
+        | "c" => some .comment | "p" => some .pi | _ => none
+      match kind, Driver.unitsOfHex n, Driver.unitsOfHex v, p.toInt? with
+      | some kind, some n, some v, some p =>
+        some { kind := kind, name := String.ofList (n.map Char.ofNat), value := String.ofList (v.map Char.ofNat),
+               parent := if p < 0 then none else some p.toNat }
+      | _, _, _, _ => none
+    | _ => none
+
+def hexOfStr (s : String) : String := Driver.hexOfUnits (s.toList.map Char.toNat)
+
+def hex16 (n : UInt64) : String :=
+  let v := n.toNat
+  String.join ((List.range 4).map fun i => Driver.hex4 (v / 65536 ^ (3 - i) % 65536))
+
+def showXV (v : XV) : String :=
+  match v with
+  | .bool b => if b then "B 1" else "B 0"
+  | .num x => "N " ++ (if x.isNaN then "7ff8000000000000" else hex16 x.toBits)
+  | .str s => "S " ++ hexOfStr s
+  | .nodes l => "NS" ++ String.join (l.map fun i => s!" {i}")
+
+def showRes : Except String XV → String
+  | .ok v => showXV v
+  | .error _ => "err"
+
+def evalBoth (s : Sess) (ctx : Nat) (h : String) : String × String :=
+  match strOfHex h with
+  | none => ("bad", "bad")
+  | some cs =>
+    match parseX cs with
+    | none => ("err", "err")
+    | some e =>
+      let c : Ctx := { node := ctx, pos := 1, size := 1, list := [some ctx] }
+      let m : Except String XV := match (evalM s.doc s.vars 64 e c).run none with
+        | .ok (v, _) => .ok v
+        | .error x => .error x
+      (showRes m, showRes (evalS s.doc s.vars 64 e c))
 
 def toksOf (h : String) : Except String (List Tok) :=
   match strOfHex h with
@@ -66,7 +79,7 @@ def toksOf (h : String) : Except String (List Tok) :=
       | none => .error "unsupported"
       | some ts => .ok ts
 
-def step (s : Sess) : List String → Sess × String
+partial def step (s : Sess) : List String → Sess × String
   | ["compile", h] =>
     match toksOf h with
     | .error e => (s, e)
@@ -75,10 +88,16 @@ def step (s : Sess) : List String → Sess × String
       | none => (s, "err")
       | some m => (s, "ok" ++ String.join (m.map fun x => s!" {x}"))
   | "doc" :: _ :: tbl :: _ =>
-    ({ s with vars := [] }, s!"ok {(tbl.splitOn ";").length}")
+    match parseTable tbl with
+    | some d => ({ doc := d, vars := [], nextAddr := 1000 }, s!"ok {d.length}")
+    | none => (s, "bad")
+  | ["eval", ctx, h] =>
+    match ctx.toNat? with
+    | some n => let (m, sp) := evalBoth s n h; (s, m ++ " || " ++ sp)
+    | none => (s, "bad")
   | ["var", name, kind, v] =>
-    let bind (x : Val String Float) : Sess × String :=
-      ({ vars := (name, ⟨s.nextAddr, x⟩) :: s.vars.filter (·.1 ≠ name), nextAddr := s.nextAddr + 1 }, "ok")
+    let bind (x : XV) : Sess × String :=
+      ({ s with vars := (name, s.nextAddr, x) :: s.vars.filter (·.1 ≠ name), nextAddr := s.nextAddr + 1 }, "ok")
     if kind = "b" then bind (.bool (v = "1"))
     else if kind = "n" then
       match Driver.parseHex v with
@@ -88,24 +107,29 @@ def step (s : Sess) : List String → Sess × String
       match strOfHex v with
       | some cs => bind (.str (String.ofList cs))
       | none => (s, "bad")
-    else (s, "bad")
-  | ["var", name, "x", _, sv] =>
-    if sv.startsWith "NS:" then
-      let body := (sv.drop 3).toString
-      let items := if body = "" then [] else body.splitOn ","
-      match items.mapM strOfHex with
-      | some ls =>
-        let strs := ls.map String.ofList
-        ({ vars := (name, ⟨s.nextAddr, .nodes strs⟩) :: s.vars.filter (·.1 ≠ name), nextAddr := s.nextAddr + 1 },
-         "ok NS" ++ String.join (items.map fun h => " " ++ h))
+    else if kind = "x" then
+      match strOfHex v with
       | none => (s, "bad")
+      | some cs =>
+        match parseX cs with
+        | none => (s, "err")
+        | some e =>
+          match (evalM s.doc s.vars 64 e { node := 0, pos := 1, size := 1, list := [some 0] }).run none with
+          | .ok (x, _) =>
+            let desc := match x with
+              | .nodes l => "NS" ++ String.join (l.map fun i => " " ++ hexOfStr (s.doc.stringValue i))
+              | x => showXV x
+            ({ s with vars := (name, s.nextAddr, x) :: s.vars.filter (·.1 ≠ name), nextAddr := s.nextAddr + 1 }, "ok " ++ desc)
+          | .error _ => (s, "err")
     else (s, "bad")
+  | "var" :: name :: "x" :: v :: _ => step s ["var", name, "x", v]
   | ["cmp", op, a, b] =>
     let o : Option CmpOp := match op with
       | "eq" => some .eq | "ne" => some .ne | "lt" => some .lt | "le" => some .le
       | "gt" => some .gt | "ge" => some .ge | _ => none
     match o, s.vars.lookup a, s.vars.lookup b with
-    | some o, some x, some y => (s, if xobjCompare floatOps o x y then "B 1" else "B 0")
+    | some o, some (ax, x), some (ay, y) =>
+      (s, if xobjCompare floatOps o ⟨ax, x.toVal s.doc⟩ ⟨ay, y.toVal s.doc⟩ then "B 1" else "B 0")
     | _, _, _ => (s, "bad")
   | _ => (s, "bad")
 
